@@ -1,4 +1,5 @@
 import LexVerif.Proof.SepFree8
+import LexVerif.Proof.PrefixRepair
 /-!
 # Proof.SepFreePhases — `parse_number` phase by phase on separator-free input:
 a format of the class "separator byte set, integer and fraction components both carry separator flags"
@@ -258,22 +259,39 @@ def CountLBc (c : Cfg) (b : Bytes) (n : Nat) : Prop := n ≤ b.currentCount c
 
 theorem prefixPhase_same (c c' : Cfg) (hS : RelClass c) (hP : PlainClass c') (hC : Counterpart c c') (b : Bytes)
     (hn : NoSep c b.slc) : prefixPhase c' b = prefixPhase c b := by
-  unfold prefixPhase
-  simp only [prefixRepair, Bool.false_eq_true, if_false]
-  rw [hC.feats, hC.basePrefix]
-  split
-  · have hn1 : NoSep c ({ b with index := b.index + 1 } : Bytes).slc := hn
-    rw [readIfValueCased_nosep c .integer 48 b hS.debug hn (hS.reach _),
-      readIfValueCased_nosep c' .integer 48 b hP.debug (hP.noSep _) (hP.reach _)]
-    simp only [bind, Except.bind]
+  have hn1 : NoSep c ({ b with index := b.index + 1 } : Bytes).slc := hn
+  have hcur : prefixPhaseCurrent c' b = prefixPhaseCurrent c b := by
+    unfold prefixPhaseCurrent
+    rw [hC.feats, hC.basePrefix]
     split
-    · simp only [readIfValue, hC.caseSensitiveBasePrefix, hC.requiredIntegerDigits,
-        readIfValueCased_nosep c .integer _ _ hS.debug hn1 (hS.reach _),
-        readIfValueCased_nosep c' .integer _ _ hP.debug (hP.noSep _) (hP.reach _),
-        readIfValueUncased_nosep c .integer _ _ hS.debug hn1 (hS.reach _),
-        readIfValueUncased_nosep c' .integer _ _ hP.debug (hP.noSep _) (hP.reach _)]
+    · rw [readIfValueCased_nosep c .integer 48 b hS.debug hn (hS.reach _),
+        readIfValueCased_nosep c' .integer 48 b hP.debug (hP.noSep _) (hP.reach _)]
+      simp only [bind, Except.bind]
+      split
+      · simp only [readIfValue, hC.caseSensitiveBasePrefix, hC.requiredIntegerDigits,
+          readIfValueCased_nosep c .integer _ _ hS.debug hn1 (hS.reach _),
+          readIfValueCased_nosep c' .integer _ _ hP.debug (hP.noSep _) (hP.reach _),
+          readIfValueUncased_nosep c .integer _ _ hS.debug hn1 (hS.reach _),
+          readIfValueUncased_nosep c' .integer _ _ hP.debug (hP.noSep _) (hP.reach _)]
+      · rfl
     · rfl
-  · rfl
+  have hrep : prefixPhaseRepaired c' b = prefixPhaseRepaired c b := by
+    unfold prefixPhaseRepaired
+    rw [hC.feats, hC.basePrefix]
+    split
+    · rw [readIfValueCased_nosep c .integer 48 b hS.debug hn (hS.reach _),
+        readIfValueCased_nosep c' .integer 48 b hP.debug (hP.noSep _) (hP.reach _)]
+      simp only [bind, Except.bind]
+      split
+      · simp only [readIfValue, hC.caseSensitiveBasePrefix, hC.requiredIntegerDigits, hS.debug, hP.debug,
+          readIfValueCased_nosep c .integer _ _ hS.debug hn1 (hS.reach _),
+          readIfValueCased_nosep c' .integer _ _ hP.debug (hP.noSep _) (hP.reach _),
+          readIfValueUncased_nosep c .integer _ _ hS.debug hn1 (hS.reach _),
+          readIfValueUncased_nosep c' .integer _ _ hP.debug (hP.noSep _) (hP.reach _)]
+      · rfl
+    · rfl
+  unfold prefixPhase
+  rw [hcur, hrep]
 
 theorem ite_pair {p : Prop} [Decidable p] {x y r : Bool × Bytes} (h : (if p then x else y) = r) :
     r.2 = x.2 ∨ r.2 = y.2 := by
@@ -296,29 +314,62 @@ theorem readIfValue_slc (c : Cfg) (k : Comp) (v : Nat) (cased : Bool) (b b' : By
 theorem prefixPhase_slc (c : Cfg) (hd : c.debug = false) (hk : c.skip .integer ≠ .unreachable) (b start : Bytes)
     (p : Bool) (hn : NoSep c b.slc) (h : prefixPhase c b = .ok (p, start)) :
     start.slc = b.slc ∧ b.index ≤ start.index := by
+  have hn1 : NoSep c ({ b with index := b.index + 1 } : Bytes).slc := hn
   unfold prefixPhase at h
-  simp only [prefixRepair, Bool.false_eq_true, if_false] at h
   split at h
-  · have hn1 : NoSep c ({ b with index := b.index + 1 } : Bytes).slc := hn
-    rw [readIfValueCased_nosep c .integer 48 b hd hn hk] at h
-    simp only [bind, Except.bind] at h
-    by_cases h48 : b.slc[b.index]? = some 48
-    · simp only [h48, if_true] at h
-      cases hr : readIfValue c .integer c.basePrefix c.caseSensitiveBasePrefix { b with index := b.index + 1 } with
-      | error e => simp [hr] at h
-      | ok r =>
-        obtain ⟨hit, b2⟩ := r
-        simp only [hr] at h
-        have := readIfValue_slc c .integer _ _ _ _ _ hd hn1 hk hr
-        split at h
-        · cases h
-        · simp only [pure, Except.pure, Except.ok.injEq, Prod.mk.injEq] at h
-          obtain ⟨_, rfl⟩ := h
-          exact ⟨this.1, by have := this.2; simp only at this; omega⟩
-    · simp only [h48, if_false, pure, Except.pure] at h
+  · -- repaired `parse_number`
+    rw [LexVerif.Proof.PrefixRepair.prefixPhaseRepaired_eq] at h
+    split at h
+    · rw [readIfValueCased_nosep c .integer 48 b hd hn hk] at h
+      by_cases h48 : b.slc[b.index]? = some 48
+      · simp only [h48, if_true] at h
+        cases hr : readIfValue c .integer c.basePrefix c.caseSensitiveBasePrefix { b with index := b.index + 1 } with
+        | error e => simp [hr] at h
+        | ok r =>
+          obtain ⟨hit, b2⟩ := r
+          simp only [hr] at h
+          have := readIfValue_slc c .integer _ _ _ _ _ hd hn1 hk hr
+          cases hit with
+          | true =>
+            simp only at h
+            split at h
+            · cases h
+            · simp only [Except.ok.injEq, Prod.mk.injEq] at h
+              obtain ⟨_, rfl⟩ := h
+              exact ⟨this.1, by have := this.2; simp only at this; omega⟩
+          | false =>
+            simp only at h
+            split at h
+            · simp only [Except.ok.injEq, Prod.mk.injEq] at h
+              obtain ⟨_, rfl⟩ := h
+              exact ⟨rfl, Nat.le_refl _⟩
+            · split at h <;> cases h
+      · simp only [h48, if_false] at h
+        simp only [Except.ok.injEq, Prod.mk.injEq] at h
+        obtain ⟨_, rfl⟩ := h; simp
+    · simp only [Except.ok.injEq, Prod.mk.injEq] at h
       obtain ⟨_, rfl⟩ := h; simp
-  · simp only [pure, Except.pure, Except.ok.injEq, Prod.mk.injEq] at h
-    obtain ⟨_, rfl⟩ := h; simp
+  · unfold prefixPhaseCurrent at h
+    split at h
+    · rw [readIfValueCased_nosep c .integer 48 b hd hn hk] at h
+      simp only [bind, Except.bind] at h
+      by_cases h48 : b.slc[b.index]? = some 48
+      · simp only [h48, if_true] at h
+        cases hr : readIfValue c .integer c.basePrefix c.caseSensitiveBasePrefix { b with index := b.index + 1 } with
+        | error e => simp [hr] at h
+        | ok r =>
+          obtain ⟨hit, b2⟩ := r
+          simp only [hr] at h
+          have := readIfValue_slc c .integer _ _ _ _ _ hd hn1 hk hr
+          split at h
+          · cases h
+          · simp only [pure, Except.pure, Except.ok.injEq, Prod.mk.injEq] at h
+            obtain ⟨_, rfl⟩ := h
+            exact ⟨this.1, by have := this.2; simp only at this; omega⟩
+      · simp only [h48, if_false, pure, Except.pure] at h
+        obtain ⟨_, rfl⟩ := h; simp
+    · simp only [pure, Except.pure, Except.ok.injEq, Prod.mk.injEq] at h
+      obtain ⟨_, rfl⟩ := h; simp
 
 /-- what the two runs agree on after the integer digits -/
 def IntRel (c : Cfg) (s : List Nat) (ip ip' : IntPart) : Prop :=
